@@ -104,7 +104,7 @@ def execute(version, script, token, user_plug, seed, thr_of=None, keybits=1024, 
         steps = [('expect', 2)]
         for j, st in enumerate(script):
             if st[0] == 'enc':
-                sid = ('srv%04x' % rng.getrandbits(16)) if st[1] else '-'
+                sid = (('\ufeff' if rng.random() < 0.3 else '') + 'srv%04x\u00e9' % rng.getrandbits(16)) if st[1] else '-'
                 tok = bytes(rng.getrandbits(8) for _ in range(rng.choice([1, 4, 16, 64])))
                 info['srv_token'], info['server_id'] = tok, sid
 
